@@ -404,7 +404,7 @@ pub fn main(args: &Args) -> Report {
         "random graphs (1-6 nodes, typed properties, optional parallel relationships and self loops; with/without indexes; runs, compacted, compacted+reopened) x generated bases (node scan, label scan, expand in three directions, typed expand, two-hop, UNWIND, UNWIND+MATCH, OPTIONAL MATCH with filter on completed rows, cartesian product) x generated boolean predicates (comparisons, string operators, IN, IS NULL, boolean properties, connectives, pattern predicates, label predicates, CASE, quantifiers, EXISTS subqueries, arithmetic, functions, cross-kind comparisons); oracle: multiset(rows WHERE p) + (WHERE NOT p) + (WHERE p IS NULL) == multiset(rows); a quadruple where any query errors is inconclusive. A cell is (base kind, predicate construct)",
     );
     rep.assume("predicates are deterministic; the filter after OPTIONAL MATCH is attached with WITH * WHERE");
-    let n = if args.thorough() { 40_000 } else { 4000 };
+    let n = if args.thorough() { 400_000 } else { 4000 };
     let deadline = Instant::now() + Duration::from_secs(args.budget_s(120, 1200));
     let seed = args.seed;
     let (mut out, _) = par_cases(n, threads(), Some(deadline), |k| {
